@@ -60,10 +60,10 @@ type FuncContract struct {
 	File     string
 	Line     int
 	Recvs    map[string]*Clause // channel text -> assumed invariant of received values (trusted)
-	Uses     map[string]bool // when non-nil: only the postconditions of these callees are assumed (others: results and write sets only)
-	MaxPaths int             // live symbolic paths kept apart before joining (default 4)
-	Bounded  string          // non-empty: obligations of this function are bounded stand-ins (text = bound)
-	Skip     map[string]bool // kinds of implicit obligations not generated (reported)
+	Uses     map[string]bool    // when non-nil: only the postconditions of these callees are assumed (others: results and write sets only)
+	MaxPaths int                // live symbolic paths kept apart before joining (default 4)
+	Bounded  string             // non-empty: obligations of this function are bounded stand-ins (text = bound)
+	Skip     map[string]bool    // kinds of implicit obligations not generated (reported)
 	Notes    []string
 	UsedBy   map[string]bool
 }
@@ -183,6 +183,9 @@ func (cs *ContractSet) ParseContractFile(pkgPath, filename string, f *ast.File, 
 		switch kw {
 		case "func", "iface", "fieldfunc":
 			key := strings.TrimSpace(rest)
+			if kw == "iface" && !(strings.HasPrefix(key, "(") && strings.Contains(key, ").")) {
+				return fmt.Errorf("%s:%d: iface contract must be written (Interface).Method, got %q", filename, l.line, key)
+			}
 			if kw == "fieldfunc" {
 				key = "field:" + key
 			}
